@@ -30,9 +30,9 @@ META = {
     "level_note": "Trusts numpy/scipy and pv/ref/gates.py. Gates without a tabulated formula fall back to qp.matrix (fraction reported as "
                   "independent_fraction). ParametrizedEvolution kernel covered only for time-independent Hamiltonians (expm reference, ODE tolerance 1e-5) "
                   "in the thorough tier; sparse-only operator kernel (has_sparse_matrix and no matrix) is not reachable with built-in operations; tensorflow not installed.",
-    "shards": {"quick": 3, "thorough": 12},
-    "budget_s": {"quick": 110, "thorough": 240},
-    "min_evals": {"quick": 1500, "thorough": 30000},
+    "shards": {"quick": 3, "thorough": 9},
+    "budget_s": {"quick": 110, "thorough": 180},
+    "min_evals": {"quick": 1200, "thorough": 8000},
     "deciding": ["dq.result", "dq.kernel"],
     "rule": "case = (circuit spec, device wires, interface, path); distinct = fingerprint of the full spec; non-trivial = the reference final "
             "state is a genuine superposition (>= 2 amplitudes above 1e-6) or the circuit is broadcast",
